@@ -84,13 +84,26 @@ class EIG(BaseRoutine):
         self.find_zero_states()
         self.x_name = np.array(dae.x_name)
 
-        self.As = self._reduce(dae.fx, dae.fy,
-                               dae.gx, dae.gy, dae.Tf,
-                               dense=dense)
+        if len(self.zstate_idx) == 0:
+            self.As = self._reduce(dae.fx, dae.fy,
+                                   dae.gx, dae.gy, dae.Tf,
+                                   dense=dense)
+            return self.As
 
-        if len(self.zstate_idx) > 0:
-            self.Asc = self.As
-            self.As = self._reduce(*self._reorder())
+        # States with zero time constants are algebraic variables: ``0 = f_z(x, y)``.
+        # Move their equations and variables to the algebraic block and reduce once.
+        zs = [int(i) for i in self.zstate_idx]
+        ds = [i for i in range(dae.n) if i not in set(zs)]
+        fx, fy, gx, gy = dae.fx, dae.fy, dae.gx, dae.gy
+
+        nfx = fx[ds, ds]
+        nfy = sparse([[fx[ds, zs]], [fy[ds, :]]])
+        ngx = sparse([[fx[zs, ds], gx[:, ds]]])
+        ngy = sparse([[fx[zs, zs], gx[:, zs]],
+                      [fy[zs, :], gy]])
+
+        self.x_name = self.x_name[ds]
+        self.As = self._reduce(nfx, nfy, ngx, ngy, dae.Tf[ds], dense=dense)
 
         return self.As
 
